@@ -598,6 +598,38 @@ def rule_stage_eval(chk):
     return True
 
 
+def stage_declared_only(f):
+    """add_stage for an entry point that is declared but has no body (`void cs(); Pipeline P { ComputeShader = cs; }`):
+    -> "Err" | "Ok" | ("aborts", why) | ("unreadable", why) per ShaderStage"""
+    import interp as I
+    fn = f.fn("add_stage", "rssl_typer")
+    stages = f.variants("ShaderStage", "rssl_ir")
+    if not fn or not stages:
+        return None
+    opt = lambda v: I.Enum("Option", "None") if v is None else I.Enum("Option", "Some", {"0": v})
+
+    def deref(v):
+        return v.get() if isinstance(v, I.Ref) else v
+    out = {}
+    for st in stages:
+        ext = {"FunctionRegistry::iter": lambda a: [I.Enum("FunctionId", None, {"0": i}) for i in range(2)],
+               "FunctionRegistry::get_function_name": lambda a: ["helper", "Entry"][deref(a[1]).fields["0"]],
+               "FunctionRegistry::get_function_implementation": lambda a: opt(None),
+               "evaluate_constexpr": lambda a: I.Enum("Result", "Ok", {"0": I.Enum("Constant", "UInt32", {"0": 1})})}
+        ip = I.Interp(f, max_depth=6, extern=ext)
+        ident = I.Enum("ScopedIdentifier", None, {"base": I.Enum("ScopedIdentifierBase", "Relative"), "identifiers": [I.Enum("Located", None, {"node": "Entry", "location": I.Opaque("location")})]})
+        entry = I.Enum("Located", None, {"node": I.Enum("PipelinePropertyValue", "Single", {"0": I.Enum("Expression", "Identifier", {"0": ident})}), "location": I.Opaque("location")})
+        ctx = I.Enum("Context", None, {"module": I.Enum("Module", None, {"function_registry": I.Opaque("function registry")})})
+        pdef = I.Enum("PipelineDefinition", None, {"stages": []})
+        try:
+            r = ip.apply(fn, [entry, I.Enum("ShaderStage", st), ctx, pdef])
+        except I.Unknown as e:
+            out[st] = ("aborts" if "panicking" in str(e) else "unreadable", str(e)[:80])
+            continue
+        out[st] = r.variant if isinstance(r, I.Enum) else ("unreadable", repr(r)[:60])
+    return out
+
+
 def rule_thread_group(chk):
     """Reported thread-group size = the entry point's [numthreads]: add_stage scans the function's attribute list for
     NumThreads; the scan must look at every attribute (no break / early exit on another attribute kind - the exporters
